@@ -216,7 +216,7 @@ class Prop:
     probes = ["family_G", "family_T", "family_S", "compared", "value_nonzero", "internal_after_output", "product_requested",
               "hermitian_product", "marker_hermitian", "marker_antihermitian", "clause_diagonal", "clause_offdiagonal",
               "clause_lower", "fn_call", "fn_series_arg", "division", "ifexp", "start_one", "start_input", "start_none",
-              "two_block_optimized", "commuting_false", "offdiag_present", "program_rejected", "prelude_program", "hermitian_product_3", "eviction_observed",
+              "two_block_optimized", "commuting_false", "offdiag_present", "program_rejected", "prelude_program", "hermitian_product_3", "linear_operator_mode", "family_F", "flags_clause_checked", "eviction_observed",
               "recompute_after_eviction"]
     components_real = ["pymablock.algorithm_parsing (compiler, series_computation), pymablock.series, pymablock.algorithms, "
                        "block_diagonalize wiring of scope (family S)"]
@@ -233,9 +233,11 @@ class Prop:
         x = r.random()
         if x < 0.62:
             return self.gen_G(r, tier)
-        if x < 0.9:
+        if x < 0.88:
             return self.gen_T(r, tier)
-        return self.gen_S(r, tier)
+        if x < 0.97:
+            return self.gen_S(r, tier)
+        return self.gen_F(r, tier)
 
     def _schedule(self, r, names, outputs, nb, ninf, cap, tier):
         orders = [n for n in itertools.product(range(MAXO[ninf] + 1), repeat=ninf) if sum(n) <= cap]
@@ -298,26 +300,100 @@ class Prop:
         from props.c10 import PROP as C10
         from props.graph import internal_names
 
+        implicit = r.random() < 0.3
         for _ in range(20):
-            w = C10.gen_world(r, tier, {"domains": ["sym"], "ncomps": [1], "p_chain": 0.0, "p_illposed": 0.0, "p_derived": 0.0})
-            if w["domain"] == "sym":
-                break
+            if implicit:
+                # linear-operator mode: last block implicit, float values, compared through the action on the identity
+                w = C10.gen_world(r, tier, {"domains": ["dense"], "p_implicit": 1.0, "ncomps": [1], "p_chain": 0.0,
+                                           "p_illposed": 0.0, "p_derived": 0.0})
+                if w["fmt"] == "implicit":
+                    # real worlds only: ComplementProjector's rmatvec applies the transpose instead of the adjoint
+                    # (a C17 matter), which array @ operator products of the reference would run into for complex bases
+                    w["real"] = True
+                    w["complex_e"] = False
+                    break
+            else:
+                w = C10.gen_world(r, tier, {"domains": ["sym"], "ncomps": [1], "p_chain": 0.0, "p_illposed": 0.0, "p_derived": 0.0})
+                if w["domain"] == "sym":
+                    break
         w["internals"] = True
         w["derived"] = False
         # symbolic masks are numpy arrays as well; allow them here
         spec = w["comps"][0]
         nb = len(w["sizes"])
-        if r.random() < 0.5 and spec["fd"] is None:
+        if r.random() < 0.5 and spec["fd"] is None and not implicit:
             blocks = sorted(r.sample(range(nb), r.randint(1, nb)))
             spec["fd"] = {"blocks": blocks, "mseed": r.randrange(1 << 30)} if r.random() < 0.6 else blocks
         herm = bool(spec["herm"])
         names = [n[4:] for n in internal_names(herm)] + ["H_tilde", "U", "U†"]
-        case = {"family": "S", "world": w, "nb": nb, "ninf": 1, "cap": 3}
-        case["ops"] = self._schedule(r, names, ["H_tilde", "U", "U†"], nb, 1, 3, "quick")[:40]
+        ninf = w["npert"]
+        cap = min(w.get("cap", 3), 3 if ninf == 1 else 2)
+        case = {"family": "S", "world": w, "nb": nb, "ninf": ninf, "cap": cap}
+        case["ops"] = self._schedule(r, names, ["H_tilde", "U", "U†"], nb, ninf, cap, "quick")[:40]
         return case
+
+    def gen_F(self, r, tier):
+        """Side clause: the two-block and commuting-block flags never change a value (exact arithmetic, no masks)."""
+        from props.c10 import PROP as C10
+
+        for _ in range(20):
+            w = C10.gen_world(r, tier, {"domains": ["sym"], "ncomps": [1], "p_chain": 0.0, "p_illposed": 0.0, "p_derived": 0.0})
+            if w["domain"] == "sym" and w["herm"]:
+                break
+        w["herm"] = True
+        w["comps"][0].update(herm=True, fd=None, solver="default")
+        w["internals"] = False
+        w["derived"] = False
+        w["deg"] = False
+        nb = len(w["sizes"])
+        ops = self._schedule(r, ["H_tilde", "U", "U†"], ["H_tilde", "U", "U†"], nb, 1, 3, "quick")[:25]
+        return {"family": "F", "world": w, "nb": nb, "ninf": 1, "cap": 3, "ops": ops}
+
+    def _execute_F(self, case):
+        from pymablock import algorithms
+        from pymablock.algorithm_parsing import series_computation
+        from props import graph
+
+        w = case["world"]
+        nb = case["nb"]
+        events, counters, stats = [], {"family_F": 1}, {}
+        sim = graph.Sim(w, graph.Env(active=False))
+        sim.build(0)
+        gl = sim.comps[0]["out"][0].eval.__globals__
+        sim2 = graph.Sim(w, graph.Env(active=False))  # fresh input objects for the un-optimised twin
+        sim2.build(0)
+        H2 = sim2.comps[0]["out"][0].eval.__globals__["series"]["H"]
+        scope = {"solve_sylvester": gl["solve_sylvester"], "two_block_optimized": False,
+                 "commuting_blocks": [False] * nb}
+        for k in ("diag", "offdiag"):  # a single block is fully diagonalised by default
+            if gl.get(k) is not None:
+                scope[k] = gl[k]
+        plain, _ = series_computation({"H": H2}, algorithm=algorithms.main, scope=scope, operator=lambda a, b: a @ b)
+        optimised = gl["series"]
+        violation = None
+        compared = 0
+        for opi, (name, i, j, n) in enumerate(case["ops"]):
+            if i >= nb or j >= nb or sum(n) > case["cap"]:
+                continue
+            index = (i, j, *n)
+            a, b = optimised[name][index], plain[name][index]
+            na, nb_ = norm(a), norm(b)
+            # an explicit zero matrix and the absent sentinel denote the same value
+            za = na[0] == "zero" or (na[0] == "sym" and all(x == 0 for x in na[2]))
+            zb = nb_[0] == "zero" or (nb_[0] == "sym" and all(x == 0 for x in nb_[2]))
+            if not ((za and zb) or same(na, nb_, stats)):
+                violation = {"class": "flags-change-value", "detail": f"op#{opi} {name}[{index}]: with two_block_optimized={gl['two_block_optimized']}, commuting_blocks={gl['commuting_blocks']} -> {self._show(a)}; with the flags off -> {self._show(b)}", "info": {}}
+                break
+            compared += 1
+            events.append(("ret", opi, name, index, fingerprint(norm(a))))
+        counters["compared"] = compared
+        counters["flags_clause_checked"] = compared
+        return self._out(violation, events, counters, compared >= 10)
 
     # ------------------------------------------------------------------ execution
     def execute(self, case):
+        if case["family"] == "F":
+            return self._execute_F(case)
         pre = case.get("prelude")
         out0 = None
         if pre and case["family"] == "G":
@@ -430,6 +506,8 @@ class Prop:
             outputs = ["H_tilde", "U", "U†"]
             if gl.get("offdiag") is not None:
                 bump("offdiag_present")
+            if w["fmt"] == "implicit":
+                bump("linear_operator_mode")
             if gl.get("two_block_optimized"):
                 bump("two_block_optimized")
             if not all(gl.get("commuting_blocks", [True])):
